@@ -47,6 +47,7 @@ type queue interface {
 	discard(n int) int
 	buffered() int
 	reset()
+	done() // the owner is finished with the buffer's content (connection closed); the queue is used again afterwards
 }
 
 type ringQ struct{ b *ring.Buffer }
@@ -65,6 +66,7 @@ func (q ringQ) peek(n int) [][]byte { h, t := q.b.Peek(n); return [][]byte{h, t}
 func (q ringQ) discard(n int) int   { d, _ := q.b.Discard(n); return d }
 func (q ringQ) buffered() int       { return q.b.Buffered() }
 func (q ringQ) reset()              { q.b.Reset() }
+func (q ringQ) done()               { q.b.Reset() }
 
 type eringQ struct{ b *elastic.RingBuffer }
 
@@ -82,6 +84,7 @@ func (q eringQ) peek(n int) [][]byte { h, t := q.b.Peek(n); return [][]byte{h, t
 func (q eringQ) discard(n int) int   { d, _ := q.b.Discard(n); return d }
 func (q eringQ) buffered() int       { return q.b.Buffered() }
 func (q eringQ) reset()              { q.b.Reset() }
+func (q eringQ) done()               { q.b.Done() } // the ring goes back to the pool, whatever it holds
 
 type listQ struct{ b *linkedlist.Buffer }
 
@@ -99,6 +102,7 @@ func (q listQ) peek(n int) [][]byte { return q.b.Peek(n) }
 func (q listQ) discard(n int) int   { d, _ := q.b.Discard(n); return d }
 func (q listQ) buffered() int       { return q.b.Buffered() }
 func (q listQ) reset()              { q.b.Reset() }
+func (q listQ) done()               { q.b.Reset() }
 
 type elasticQ struct{ b *elastic.Buffer }
 
@@ -109,6 +113,7 @@ func (q elasticQ) peek(n int) [][]byte    { return q.b.Peek(n) }
 func (q elasticQ) discard(n int) int      { d, _ := q.b.Discard(n); return d }
 func (q elasticQ) buffered() int          { return q.b.Buffered() }
 func (q elasticQ) reset()                 { q.b.Reset(0) }
+func (q elasticQ) done()                  { q.b.Release() }
 
 // runs encodes bytes as maximal runs of values increasing by one modulo 251: [first value, length].
 func runs(bs [][]byte) [][2]int {
@@ -205,6 +210,8 @@ func bufq(in, out string) error {
 				r.Ret = q.discard(o.N)
 			case "reset":
 				q.reset()
+			case "done":
+				q.done()
 			}
 			r.Buffered = q.buffered()
 			enc.Encode(&r)
